@@ -99,7 +99,9 @@ class Check:
               "wall_s": round(time.time() - self.t0, 2), "violations": len(self.violations),
               "known_findings": self.known}
         os.makedirs(os.path.join(VERIF, "evidence"), exist_ok=True)
-        if not self.replay_mode:
+        # (VERIF_NO_EVIDENCE: runs against a deliberately modified repository - bin/try_mutant, the matrices - do not overwrite the evidence
+        #  of the last run on the unchanged tree)
+        if not self.replay_mode and not os.environ.get("VERIF_NO_EVIDENCE"):
             with open(os.path.join(VERIF, "evidence", self.pid + ".json"), "w") as f:
                 json.dump(ev, f, indent=1)
         shutil.rmtree(self.work, ignore_errors=True)
